@@ -256,6 +256,18 @@ func c13Catalogue(maxChain int) []option {
 				p, ctx := ow.plants(inst, "string")
 				return append(ctx, gen.P(payload(kw, pi), p...))
 			}})
+			// the owner itself is an array AND carries the keyword, next to items that carry one too (two features of one owner)
+			opts = append(opts, option{Label: fmt.Sprintf("%s@%s+items", kw, ow.label), Plants: func(inst, pi int) []gen.Plant {
+				p, ctx := ow.plants(inst, "array")
+				pl := append([]gen.Plant(nil), ctx...)
+				pl = append(pl, gen.P(payload(kw, pi), p...))
+				items := append(append([]string(nil), p...), "items")
+				other := "enum"
+				if kw == "enum" {
+					other = "pattern"
+				}
+				return append(pl, gen.P(gen.J{"type": "string"}, items...), gen.P(payload(other, pi+1), items...))
+			}})
 			for depth := 1; depth <= 3; depth++ {
 				d := depth
 				if d > 1 && (strings.Contains(ow.label, "Named[") || strings.Contains(ow.label, "AtPath[")) {
@@ -451,6 +463,21 @@ func init() {
 		c.Bounds["items_nesting"] = 3
 		c.Bounds["catalogue"] = len(cat)
 		c.Bounds["plants_per_document"] = 2
-		runDocCatalogue(c, "c13", cat, 2, c13Check)
+		if c.Thorough() {
+			runDocCatalogue(c, "c13", cat, 2, c13Check)
+			return
+		}
+		// quick: every single plant of the whole catalogue; every pair of plants of the core catalogue (owners under the
+		// base path template with plain names; the name / path-template / non-GET location variants occur as singles)
+		runDocCatalogue(c, "c13", cat, 1, c13Check)
+		var core []option
+		for _, o := range cat {
+			if strings.Contains(o.Label, "Named[") || strings.Contains(o.Label, "AtPath[") {
+				continue
+			}
+			core = append(core, o)
+		}
+		c.Bounds["catalogue_pairs"] = len(core)
+		runDocCatalogue(c, "c13", core, 2, c13Check)
 	}, Replay: replayDoc(c13Check)})
 }
